@@ -7,12 +7,14 @@ import (
 
 	"verif/lib/ev"
 	"verif/lib/guard"
+	"verif/lib/sched"
 )
 
 // C07: with user-managed memory every block is released exactly once by Close.
 func TestC07(t *testing.T) {
 	st := ev.Get("C07", "TestC07")
 	rapid.Check(t, func(t *rapid.T) {
+		sched.SeedRand(t)
 		cfg := genCfg(t, 1, true)
 		if rapid.IntRange(0, 2).Draw(t, "trap") > 0 {
 			cfg.GuardMode = guard.Quarantine
